@@ -122,6 +122,8 @@ def gen_config(ch, max_nodes=220, allow_thin=True):
     cfg["nplanes"] = 1 + ch.draw("nplanes", 3) if cfg["naxis"] > 2 else 1
     cfg["cube_index"] = ch.draw("cube_index", cfg["nplanes"])
     cfg["bitpix"] = ch.pick("bitpix", (-64, -32))
+    # BSCALE keyword: the file stores physical/BSCALE (exact: powers of two); None = keyword absent
+    cfg["bscale"] = ch.pick("bscale", (None, None, None, None, 2.0, None, -2.0, 0.5, 1.0, -1.0))
     return cfg
 
 
@@ -177,9 +179,11 @@ def make_image(cfg, content, shift=0.0, scale=1.0):
 
 
 def write_image(path, cfg, img):
+    """``img`` holds the physical pixel values; with a BSCALE keyword the file stores img / BSCALE."""
     fits = _state["fits"]
     dtype = np.float32 if cfg["bitpix"] == -32 else np.float64
-    data = img.astype(dtype)
+    bscale = cfg.get("bscale")
+    data = (img / bscale if bscale else img).astype(dtype)
     if cfg["naxis"] == 3:
         cube = np.stack([data + 0] * cfg["nplanes"])
         for p in range(cfg["nplanes"]):
@@ -193,6 +197,13 @@ def write_image(path, cfg, img):
                 cube[p] = cube[p] * 3.0 + 17.0
         data = cube[None]
     hdu = fits.PrimaryHDU(data)
+    h = hdu.header
+    h["CTYPE1"], h["CTYPE2"] = "RA---SIN", "DEC--SIN"
+    h["CRVAL1"], h["CRVAL2"] = 30.0, -20.0
+    h["CRPIX1"], h["CRPIX2"] = (cfg["cols"] + 1) / 2.0, (cfg["rows"] + 1) / 2.0
+    h["CDELT1"], h["CDELT2"] = -1.0 / 3600, 1.0 / 3600
+    if bscale:
+        h["BSCALE"] = float(bscale)
     hdu.writeto(path, overwrite=True)
     return path
 
@@ -414,9 +425,10 @@ def run_bane(filename, cfg, sched, ch, faults=None, fill="payload", ncpu=16, cor
         main_cfg["cores"] = cores_override
 
     def main():
-        return BANE.filter_image(filename, out_base=None,
+        return BANE.filter_image(filename, out_base=main_cfg.get("out_base"),
                                  step_size=tuple(main_cfg["grid"]), box_size=tuple(main_cfg["box"]),
                                  cores=main_cfg["cores"], mask=main_cfg["mask"],
+                                 compressed=bool(main_cfg.get("compressed", False)),
                                  nslice=main_cfg["nslice"], cube_index=main_cfg["cube_index"])
 
     saved = {}
